@@ -31,6 +31,8 @@ func (c *CertificateChain) AddCertificateChainEntry(entry *CertificateChainEntry
 type CertificateChainEntry struct {
 	RawCertificate []byte
 	Certificate    *x509.Certificate
+	//EndEntity is true for the first certificate of a verified chain (the certificate which is checked for revocation)
+	EndEntity bool
 }
 
 func NewCertificateChains(verifiedChains [][]*x509.Certificate, trustedSignerCerts []*x509.Certificate) *CertificateChains {
@@ -41,10 +43,11 @@ func NewCertificateChains(verifiedChains [][]*x509.Certificate, trustedSignerCer
 		chain := &CertificateChain{
 			CertificateChainEntryList: make([]CertificateChainEntry, 0),
 		}
-		for _, verifiedChainEntry := range verifiedChain {
+		for position, verifiedChainEntry := range verifiedChain {
 			entry := CertificateChainEntry{
 				RawCertificate: verifiedChainEntry.Raw,
 				Certificate:    verifiedChainEntry,
+				EndEntity:      position == 0,
 			}
 			chain.AddCertificateChainEntry(&entry)
 		}
